@@ -73,3 +73,24 @@ package didsubject
 //@   ensures [success-means-written-committed-and-cleaned-up] isNilIface(result) ==> isNilIface(ret(call (*gorm.DB).Transaction #1)) && did(call (*gorm.DB).Transaction #2) && isNilIface(ret(call (*gorm.DB).Transaction #2))
 //@        && (!did(call (MethodManager).Commit #1) || isNilIface(ret(call (MethodManager).Commit #1)))
 //@   ensures [a-failed-commit-is-reported] did(call (MethodManager).Commit #1) && !isNilIface(ret(call (MethodManager).Commit #1)) ==> !isNilIface(result)
+
+// Document versions of a DID are consecutive: the new version is the successor of the highest stored
+// version of this DID (-1 when there is none), read in the same transaction with "version desc",
+// and exactly that document is created. A read failure other than "not found" creates nothing.
+//@ func (orm.DidDocument).GenerateDIDDocument
+//@   trusted
+//@   benign
+//@ func uuid.New
+//@   trusted
+//@   benign
+//@ func (uuid.UUID).String
+//@   trusted
+//@   benign
+//@ func (*SqlDIDDocumentManager).CreateOrUpdate
+//@   prop C13
+//@   call (*gorm.DB).First #1 requires [highest-version-of-this-did] arg(0) == ret(call (*gorm.DB).Order #1) && arg(call (*gorm.DB).Order #1, 1) == any("version desc")
+//@        && arg(call (*gorm.DB).Order #1, 0) == ret(call (*gorm.DB).Where #1) && arg(call (*gorm.DB).Where #1, 1) == any("did = ?")
+//@        && len(arg(call (*gorm.DB).Where #1, 2)) == 1 && arg(call (*gorm.DB).Where #1, 2)[0] == any(did.ID) && arg(1) == any(&latest) && latest.Version == -1
+//@   call (*gorm.DB).Create #1 requires [next-version-is-the-successor] arg(0) == s.tx && arg(1) == any(&doc) && doc.Version == latest.Version + 1 && same(doc.DID, did)
+//@        && (ret(call (*gorm.DB).First #1).Error == nil || ret(call errors.Is #1) == true)
+//@   ensures [what-was-created-is-returned] isNilIface(result.1) ==> result.0 != nil && did(call (*gorm.DB).Create #1) && ret(call (*gorm.DB).Create #1).Error == nil
